@@ -246,6 +246,14 @@ structure Statement : Prop where
   /-- the hard-coded "empty bin" threshold of the nested derivative is `EvolvedMF`'s `Nmin`; the age offset is 0.1 Msun -/
   source_nmin : (Generated.NminBH : ℝ) = Generated.Nmin
   source_offset : (Generated.finalAgeOffset : ℝ) = 1e-1
+  /-- the entries of the nested derivative are those of `_derivs_sev` (frem = 1, hard-coded 0.1, extra `t <= final_age`) -/
+  source_entries : ∀ (Nj p Aj mto aj dNdm dmdt dNdt frem mrem m1 t fa : ℝ),
+    Generated.bh_Aj Nj p = Generated.sev_Aj Nj p ∧ Generated.bh_dNdm Aj mto aj = Generated.sev_dNdm Aj mto aj ∧
+    Generated.bh_dNdt dNdm dmdt = Generated.sev_dNdt dNdm dmdt ∧ Generated.bh_dNr dNdt frem = Generated.sev_dNr dNdt frem ∧
+    Generated.bh_dMr mrem dNdt frem = Generated.sev_dMr mrem dNdt frem ∧
+    Generated.bh_active mto m1 Nj = Generated.sev_active mto m1 Nj Generated.NminBH ∧
+    Generated.bh_gate t fa mrem = (Scalar.le t fa && Scalar.lt 0 mrem) ∧
+    Generated.bh_frem (0 : ℝ) = 1
   /-- the source's duplicated lifetime closures are the model's (and hence `EvolvedMF`'s) -/
   source_tms : ∀ a0 a1 a2 m : ℝ, Generated.tms_bh a0 a1 a2 m = Generated.tms_main a0 a1 a2 m
   source_dmdt : ∀ a0 a1 a2 t : ℝ, Generated.dmdt_bh a0 a1 a2 t = Generated.dmdt_sev a0 a1 a2 t
@@ -277,6 +285,7 @@ structure Statement : Prop where
 /-- **C19 (partial)**: derivative-level agreement, age, bookkeeping and construction are proved; that dopri5 output of the two
     ODE systems agrees is observed (default and tightened tolerance); kicks are C15's per-bin theorem. -/
 theorem C19_partial : Statement where
+  source_entries := Bridge.gen_bh_entries
   source_nmin := by simp only [Generated.NminBH, Generated.Nmin]
   source_offset := by simp only [Generated.finalAgeOffset, real_ofSci]; try norm_num
   source_tms := fun a0 a1 a2 m => by rw [Bridge.gen_tms_bh, Bridge.gen_tms_main]
